@@ -809,7 +809,8 @@ func (n *vNode) startup() error {
 
 type vFailSink struct {
 	raft.SnapshotSink
-	left int
+	left   int
+	failed bool // a Write was refused
 }
 
 var errSinkFull = errors.New("verif: injected sink failure")
@@ -818,6 +819,7 @@ func (f *vFailSink) Write(p []byte) (int, error) {
 	if len(p) > f.left {
 		n, _ := f.SnapshotSink.Write(p[:f.left])
 		f.left = 0
+		f.failed = true
 		return n, errSinkFull
 	}
 	f.left -= len(p)
@@ -877,10 +879,19 @@ func (n *vNode) step(st vStep) (errs string) {
 			return "Create: " + err.Error()
 		}
 		var target raft.SnapshotSink = sink
+		var fs *vFailSink
 		if st.A == "PersistFail" {
-			target = &vFailSink{SnapshotSink: sink, left: st.K}
+			fs = &vFailSink{SnapshotSink: sink, left: st.K}
+			target = fs
 		}
 		perr := n.pending.Persist(target)
+		if fs != nil && fs.failed && perr == nil {
+			// raft finalises the sink when Persist returns nil: a truncated snapshot would become the newest one
+			sink.Cancel()
+			n.pending.Release()
+			n.pending = nil
+			return "Persist returned nil although a write to the sink failed"
+		}
 		if perr != nil || st.A == "PersistFail" {
 			// Persist failed, or (k beyond the snapshot's size) finalising the
 			// sink failed: raft cancels the sink either way
